@@ -124,11 +124,11 @@ def _translation(rng, bases):
     return "M" + "".join(rng.choice(AMINOS) for _ in range(max(1, bases // 3 - 1)))
 
 
-def _gen_cds(rng, length, circular, density):
+def _gen_cds(rng, length, circular, density, force_span=False):
     """ CDS on a 100-base grid: single exon, two exons, and (circular) one crossing the origin """
     slots = length // 100
     cds = []
-    spanning = circular and rng.random() < 0.6
+    spanning = circular and (force_span or rng.random() < 0.6)
     if spanning:
         strand = rng.choice([1, -1])
         tail, head = [length - 30, length], [0, 30]
@@ -182,9 +182,11 @@ def _surround(core, nb, length, circular):
     return [start - nb, end + nb]
 
 
-def gen_record_spec(rng, index, flavour, big=False):  # pylint: disable=too-many-branches
+def gen_record_spec(rng, index, flavour, big=False, showcase=False):  # pylint: disable=too-many-branches
+    """ showcase: a circular record whose origin-spanning gene is the core of a warmed origin-spanning
+        protocluster with genes on both sides (all three sections of the sectioned tuples filled) """
     length = 100 * (rng.randint(200, 500) if big else rng.randint(6, 24))
-    circular = rng.random() < (0.75 if flavour == "regions" else 0.5)
+    circular = showcase or rng.random() < (0.75 if flavour == "regions" else 0.5)
     spec = {"id": f"r{index:03d}", "seed": rng.getrandbits(32), "length": length, "circular": circular,
             "dirt": rng.choice([0, 0, 3, 40]), "index": index + 1, "flavour": flavour}
     if rng.random() < 0.15:
@@ -206,7 +208,7 @@ def gen_record_spec(rng, index, flavour, big=False):  # pylint: disable=too-many
         spec["gapless"] = rng.random() < 0.9     # removed gaps shift the end below the planned genes: the finder raises
         spec["misc"] = [[10, 20]] if rng.random() < 0.5 else []
         return spec
-    cds = _gen_cds(rng, length, circular, 0.6)
+    cds = _gen_cds(rng, length, circular, 0.9 if showcase else 0.6, force_span=showcase)
     if not cds:
         cds = _gen_cds(rng, length, circular, 1.0)
     spec["gene_plan"] = []
@@ -214,13 +216,15 @@ def gen_record_spec(rng, index, flavour, big=False):  # pylint: disable=too-many
     if flavour == "regions":
         protos = []
         cores = rng.sample(cds, min(len(cds), rng.randint(1, 3)))
-        if circular and cds[0]["slot"] is None and rng.random() < 0.85 and cds[0] not in cores:
+        if circular and cds[0]["slot"] is None and (showcase or rng.random() < 0.85) and cds[0] not in cores:
             cores.append(cds[0])
         for core_cds in cores:
             product = rng.choice(PRODUCTS)
             core_cds["core"] = product
             core = _span(core_cds, length)
             nb = 100 * rng.randint(0, 3) + rng.choice([0, 20, 50])
+            if showcase and core_cds is cds[0]:
+                nb = 100 * rng.randint(1, 2)
             protos.append({"core": core, "surround": _surround(core, nb, length, circular), "product": product,
                            "cutoff": 100 * rng.randint(0, 2), "neighbourhood": nb})
         spec["protoclusters"] = protos
@@ -228,7 +232,7 @@ def gen_record_spec(rng, index, flavour, big=False):  # pylint: disable=too-many
             a = rng.randrange(0, length // 100)
             b = rng.randrange(a + 1, length // 100 + 1)
             spec["subregions"] = [[100 * a, 100 * b]]
-        spec["warm"] = rng.random() < 0.8
+        spec["warm"] = showcase or rng.random() < 0.8
     for entry in cds:
         entry.pop("slot", None)
     spec["cds"] = cds
@@ -253,6 +257,9 @@ def gen_record_scenario(rng, sid, fn, k, n, pattern):
         flavour = rng.choice(FLAVOURS[fn])
         big = fn == "raw_sanitise" and pattern != "none" and i < max(1, n // 2) and flavour == "plain"
         records.append(gen_record_spec(rng, i, flavour, big=big))
+    if n and "regions" in FLAVOURS[fn]:
+        i = rng.randrange(n)
+        records[i] = gen_record_spec(rng, i, "regions", showcase=True)
     scenario = {"sid": sid, "kind": "record", "fn": fn, "k": k, "n": n, "pattern": pattern,
                 "records": records, "delays": gen_delays(rng, n, pattern),
                 "generator_args": rng.random() < 0.5, "via_config": rng.random() < 0.3}
@@ -281,7 +288,7 @@ def gen_plan(ctx, round_index, quick):  # pylint: disable=too-many-locals,too-ma
     # B. record functions: every cell gets one function; the assignment rotates with the round
     # (quick tier: a third of the cells, spread over every batch class and all k; which third depends on the seed)
     turn = 0
-    for cell, (k, n) in enumerate(GRID):
+    for k, n in GRID:
         if quick and (k + batches(k).index(n) + ctx.seed) % 3:
             continue
         fn = RECORD_FNS[(turn + round_index + ctx.seed) % len(RECORD_FNS)]
@@ -379,6 +386,8 @@ class Child:
                     pass
                 now = time.monotonic()
                 quiet = time.time() - os.path.getmtime(self.hist_path)
+                if not os.path.getsize(self.hist_path):
+                    quiet = 0       # still importing: only the overall watchdog applies
                 if now - self.started > self.watchdog_s or quiet > self.stall_s:
                     status["watchdog_fired"] = True
                     status["waited_s"] = round(min(quiet, now - self.started), 1)
@@ -431,6 +440,7 @@ class Book:
         self.grid = {}
         self.fn_cells = {}
         self.max_overlap = 0
+        self.last_order = None
 
     def order(self, timing):
         """ timing: [[pid, t0, t1], ...] -> completion order as a tuple of submission indices """
@@ -438,6 +448,7 @@ class Book:
 
     def note(self, scope, k, n, timing):
         order = self.order(timing)
+        self.last_order = order
         self.pids.update(t[0] for t in timing)
         identity = order == tuple(range(n))
         if n >= 2:
@@ -674,8 +685,8 @@ def check_execute(ctx, book, sc, ev):
         order = tuple(sorted(range(n), key=lambda i: (stamps[i], i)))
         identity = order == tuple(range(n))
         if not identity:
-            key = ("execute", k, n, order)
-            book.perms.add(key)
+            book.perms.add(("execute", k, n, order))
+            book.last_order = order
     if codes != sc["codes"]:
         ctx.violate("return-codes-differ", dict(facts, same_multiset=sorted(codes) == sorted(sc["codes"]),
                                                 completion_order_is_submission_order=identity), sc)
@@ -708,7 +719,7 @@ def check_history(ctx, book, plan, ended, in_flight, status):
             continue
         ev["child_pid"] = status.get("child_pid")
         kind = sc["kind"]
-        before = len(book.perms)
+        book.last_order = None
         if kind == "arith":
             nontrivial = check_arith(ctx, book, sc, ev)
         elif kind == "record":
@@ -721,8 +732,8 @@ def check_history(ctx, book, plan, ended, in_flight, status):
             nontrivial = check_hazard(ctx, book, sc, ev, "death")
         else:
             nontrivial = check_execute(ctx, book, sc, ev)
-        order_key = len(book.perms) - before
-        key = [kind, sc.get("fn"), sc["k"], sc["n"], sc.get("pattern"), sc["sid"] if order_key else "identity"]
+        key = [kind, sc.get("fn"), sc["k"], sc["n"], sc.get("pattern"), sc.get("how"), sorted(sc.get("raisers", {}).items()),
+               ev["outcome"], list(book.last_order) if book.last_order is not None else None]
         sample = None
         if nontrivial and len(ctx.samples) < 4:
             sample = {"kind": kind, "fn": sc.get("fn"), "k": sc["k"], "n": sc["n"], "pattern": sc.get("pattern"),
@@ -782,7 +793,7 @@ def run(ctx):
     rounds = ctx.quota(1, 10)
     clean = True
     for i in ctx.cases(rounds, every=1):
-        if not quick and i > 0 and ctx.time_left() < 60:
+        if not quick and i > 0 and ctx.time_left() < 75:
             ctx.budget_hit = True
             break
         clean = run_round(ctx, book, i, quick) and clean
